@@ -4,6 +4,9 @@ import Marwood.Lemmas.StackWFToy
 import Marwood.Lemmas.ConcreteLawsBpLive
 import Marwood.Lemmas.StackDiscOfWFS
 import Marwood.Lemmas.ProcInvMain
+import Marwood.Lemmas.CompileVerifies
+import Marwood.Lemmas.CompileVerifiesLoads
+import Marwood.Lemmas.CompileVerifiesCInv
 /-!
 # C04 — calls in tail position run in constant stack space (instruction level)
 
@@ -666,5 +669,123 @@ theorem step_preserves_closed (ext : ExtOps) (el : Marwood.Lemmas.Sim.ExtLaws ex
   exact ⟨h.1, (vmOkP_step el eg ep (ecl := ecl) ⟨⟨g, .inl ⟨K, hw⟩⟩, p⟩ sm hs sm').2, h.2⟩
 
 end Concrete
+
+/-! ## T04.6: the compiler model emits only code the bytecode verifier accepts
+
+The machine-level theorems above (and those of C03/C05/C07/C13) start from "every lambda cell of the heap passes
+the verifier" (`CInv.lamVer`). For the code objects of the **compiler model** this is now a theorem: for every
+datum and every fuel, whatever `compileTop` returns — the top-level lambda `ENTER <expr, tail> RET` and every
+code object `[VARARG] ENTER <body> RET` in the table, for all forms the model handles (define in both shapes,
+lambda incl. rest parameters and internal definitions, if with one or two arms, set!, quote, quasiquote with
+unquote, nested quasiquote and vector templates, applications with CALL / TCALL) — is accepted by `verify`, in
+the canonical loading `encodeLam` and in every other loading the verifier cannot tell apart (`Enc`), with the
+same abstract stack at every offset. Proof: `Lemmas/CompileBlk.lean` (the compiler emits structured code,
+induction on the fuel), `Lemmas/VerifyBlk.lean` + `VerifyProc.lean` (the forward pass runs through structured
+code), `Lemmas/VerifyInfer.lean` (the forward pass only returns assignments that pass the local check — for ALL
+bytecode, not only compiled code). The driver command `vcompile` evaluates `Vm.verifyCompiled` on the forms of
+the compiled-code comparison stream: the theorem says its answer is never `reject`. -/
+section T04_6
+open Marwood Marwood.Vm.Verify
+
+/-- **T04.6** every code object the compiler model produces verifies (canonical loading) -/
+theorem compile_verifies (e : Datum) (fuel : Nat) (st : CState) (lam : LambdaM)
+    (h : compileTop e fuel = .ok (st, lam)) :
+    (verifyLam (encodeLam lam)).isSome = true ∧ ∀ l ∈ st.lambdas, (verifyLam (encodeLam l)).isSome = true :=
+  compileTop_verifies h
+
+/-- … in every loading (`Enc`: any global slot, any environment slot, any data cell for a quoted datum, any
+    address for a code object), as procedure code -/
+theorem compile_verifies_loaded (e : Datum) (fuel : Nat) (st : CState) (lam : LambdaM)
+    (h : compileTop e fuel = .ok (st, lam)) (l : LambdaM) (hl : l = lam ∨ l ∈ st.lambdas)
+    (cells : List VCell) (he : EncList l.bc cells) :
+    ∃ t, verifyLam cells = some t ∧ t.entry = false ∧ t.bc = cells :=
+  compileTop_verifies_loaded h l hl cells he
+
+/-- the verdict depends only on what the loading preserves: all loadings of a compiled code object get the
+    same typing `tm` and the same maximal number of temporaries `k` -/
+theorem verify_encode_irrelevant (e : Datum) (fuel : Nat) (st : CState) (lam : LambdaM)
+    (h : compileTop e fuel = .ok (st, lam)) (l : LambdaM) (hl : l = lam ∨ l ∈ st.lambdas) :
+    ∃ tm k, ∀ cells, EncList l.bc cells → verify cells = .ok (⟨false, cells, tm⟩, k) :=
+  compileTop_verdict_irrelevant h l hl
+
+/-- `compile_runnable`: procedure code for the table and the top-level lambda, entry code
+    (`PUSHIMM argc0; MOVIMM λ acc; CALL; HALT`) for the entry lambda -/
+theorem compile_runnable_verifies (e : Datum) (fuel : Nat) (st : CState) (lam ent : LambdaM)
+    (h : compileRunnable e fuel = .ok (st, lam, ent)) :
+    (∀ l, (l = lam ∨ l ∈ st.lambdas) → ∃ t, verifyLam (encodeLam l) = some t ∧ t.entry = false) ∧
+    ∃ t, verifyLam (encodeLam ent) = some t ∧ t.entry = true :=
+  compileRunnable_verifies h
+
+/-- entry code in every loading -/
+theorem entry_code_verifies (id : Nat) (cells : List VCell) (he : EncList (entryCode id) cells) :
+    ∃ t, verifyLam cells = some t ∧ t.entry = true :=
+  entry_verifyLam he
+
+/-- what the driver answers to `vcompile` is never `reject` -/
+theorem vcompile_never_rejects (e : Datum) (fuel : Nat) (r : Except Reject Nat)
+    (h : verifyCompiled e fuel = .ok r) : ∃ n, r = .ok n :=
+  verifyCompiled_ok h
+
+/-- non-vacuity: `(lambda (x . r) (define y (g x)) (if x (f y) `(,x #(1 ,y))))` — a variadic lambda with an
+    internal definition, an `if`, a tail call, a non-tail call, a quasiquote with a vector template. The
+    compiler model accepts it, the table holds one code object whose calls are CALL, TCALL, CALL (`vector`),
+    and everything verifies. -/
+example :
+    (match compileTop
+      (Datum.ofList [.sym ['l','a','m','b','d','a'], .pair (.sym ['x']) (.sym ['r']),
+        Datum.ofList [.sym ['d','e','f','i','n','e'], .sym ['y'], Datum.ofList [.sym ['g'], .sym ['x']]],
+        Datum.ofList [.sym ['i','f'], .sym ['x'],
+          Datum.ofList [.sym ['f'], .sym ['y']],
+          Datum.ofList [.sym ['q','u','a','s','i','q','u','o','t','e'],
+            Datum.ofList [Datum.ofList [.sym ['u','n','q','u','o','t','e'], .sym ['x']],
+              .vec (Datum.ofList [.num (.fix 1), Datum.ofList [.sym ['u','n','q','u','o','t','e'], .sym ['y']]])]]]]) 60 with
+     | .ok (st, lam) =>
+       (st.lambdas.map (fun l => (l.isVararg, callOps l.bc)), (verifyLam (encodeLam lam)).isSome,
+        st.lambdas.all (fun l => (verifyLam (encodeLam l)).isSome))
+     | .error _ => ([], false, false)) = ([(true, [false, true, false])], true, true) := by decide +kernel
+
+/-- the loading relation of the compiler-correctness proofs (C01 T01.3, `CodeAt2`) is such a loading, once
+    quoted data are known to be loaded as data cells: a lambda of the heap that `CodeAt2`-holds a code object
+    of the compiler model passes the verifier -/
+theorem compiled_code_loaded_by_codeAt2_verifies {H : Type} {ops : HeapOps H} {e : Datum} {fuel : Nat}
+    {st : CState} {lam : LambdaM} (hc : compileTop e fuel = .ok (st, lam)) {m : LambdaM}
+    (hm : m = lam ∨ m ∈ st.lambdas) {D : Marwood.Lemmas.CompileCorrect2.RepData2 ops} {h : H}
+    {S : Array Marwood.Spec.Eval.Cell} {l : Nat} {cells : List VCell}
+    (hcode : Marwood.Lemmas.CompileCorrect2.CodeAt2 D m.envmap h S l 0 m.bc) (hlen : cells.length = m.bc.length)
+    (hcells : ∀ i : Nat, i < cells.length → ops.fetch h l i = cells[i]?)
+    (hdata : ∀ (i : Nat) d v, m.bc[i]? = some (.datum d) → ops.fetch h l i = some v → dataCell v = true) :
+    ∃ t, verifyLam cells = some t ∧ t.entry = false ∧ t.bc = cells :=
+  codeAt2_verifies hc hm hcode hlen hcells hdata
+
+open Marwood.Vm.Concrete Marwood.Lemmas.Good in
+/-- the four code clauses of the machine invariants (`CInv.lamVer`, `CInv.noIofArg`, `CInv.lamArgs`, `LamOk`)
+    for every lambda object that is a loading of a code object `compile_runnable` produces (table, top-level
+    lambda, entry lambda) -/
+theorem compiled_lambda_clauses {e : Datum} {fuel : Nat} {cl : CLambda} (h : CompiledFor e fuel cl) :
+    (verifyLam cl.bc).isSome = true ∧ (∀ x ∈ cl.envmap, ∀ n, x.2 ≠ Concrete.Source.iofArg n) ∧
+      argNeed cl.bc ≤ cl.args.length ∧ LamOk cl :=
+  compiledFor_ok h
+
+open Marwood.Vm.Concrete Marwood.Lemmas.Good in
+/-- the code half of "`prepare_eval` re-establishes the invariant": a heap that differs from a `CInv` heap by
+    allocated lambda cells holding loaded output of the compiler model (`GrowsL`: the allocation facts of `put`
+    are hypotheses) satisfies `CInv` again, keeps all old code, and keeps `LamAll` -/
+theorem compiled_install_keeps_cinv {V : VCell → Prop} {e : Datum} {fuel : Nat} {h h' : CHeap}
+    (inv : CInvG V h) (g : GrowsL (CompiledFor e fuel) h h') :
+    CInvG V h' ∧ (∀ l bc, codeC h l = some bc → codeC h' l = some bc) ∧ (LamAll h → LamAll h') :=
+  compiled_install inv g
+
+open Marwood.Vm.Concrete in
+/-- non-vacuity of `CompiledFor`: the canonical loading of the top-level lambda of `(f)` -/
+example : ∃ cl, CompiledFor (Datum.ofList [.sym ['f']]) 20 cl := by
+  have h : (match compileRunnable (Datum.ofList [.sym ['f']]) 20 with | .ok _ => true | .error _ => false) = true := by
+    decide +kernel
+  cases h' : compileRunnable (Datum.ofList [.sym ['f']]) 20 with
+  | error err => rw [h'] at h; cases h
+  | ok r =>
+    obtain ⟨st, lam, ent⟩ := r
+    exact ⟨⟨encodeLam lam, [], []⟩, st, lam, ent, lam, h', .inl rfl, ⟨encList_encode _, fun y hy => by cases hy⟩⟩
+
+end T04_6
 
 end Marwood.Proofs.C04
